@@ -509,7 +509,7 @@ def _build(v, w):
                     link = {"union": None, "list": [], "dict": {}, "tuplevar": ()}[ek]
                     link = link.copy() if hasattr(link, "copy") else link
             else:
-                link = {"union": lambda y: y, "list": lambda y: [y], "dict": lambda y: {"k": y}, "tuplevar": lambda y: (y,)}[ek](inner)
+                link = {"union": lambda y: y, "ref": lambda y: y, "list": lambda y: [y], "dict": lambda y: {"k": y}, "tuplevar": lambda y: (y,)}[ek](inner)
             fields[lv["edge_field"]] = link
             if lv["tag"] == "$dict":
                 inner = fields
